@@ -137,11 +137,15 @@ class Obj:
 
 @dataclass(frozen=True)
 class Mat:
-    """2-D complex matrix: entries re[i,j] + i*im[i,j] on [0,nr) x [0,nc)"""
+    """2-D complex matrix: entries re[i,j] + i*im[i,j] on [0,nr) x [0,nc).
+    `base` ('identity' | 'zeros' | None) and `chain` (entry stores, oldest first) describe how the arrays were built, so that
+    an entry can be read back as a scalar term without array reasoning (see Executor.mat_select)."""
     nr: object
     nc: object
     re: object
     im: object
+    base: object = None
+    chain: tuple = ()
 
 
 @dataclass(frozen=True)
